@@ -38,7 +38,15 @@ SHAPES = ['straight', 'branch', 'loop']
 
 
 def tasks(tier):
-    return [{'shape': s, 'which': w, 'deftype': d} for s in SHAPES for w in ('values', 'degrees') for d in ('Template', 'Function')]
+    ts = [{'shape': s, 'which': w, 'deftype': d} for s in SHAPES for w in ('values', 'degrees') for d in ('Template', 'Function')]
+    # whole programs of the C09 family under the symbolic clock: whatever is attached when the propagation is cut short is sound
+    from . import C09
+    nv = 120 if tier == 'quick' else 1146; nd = 40 if tier == 'quick' else 1080
+    step = 12
+    for dt in ('Template', 'Function'):
+        ts += [{'shape': 'programs', 'which': 'values', 'deftype': dt, 't': {'lo': i, 'hi': min(nv, i + step), 'tier': 'quick', 'dt': dt, 'mode': 'values', 'clock': True}} for i in range(0, nv, step)]
+    ts += [{'shape': 'programs', 'which': 'degrees', 'deftype': 'Template', 't': {'lo': i, 'hi': min(nd, i + step), 'tier': 'quick', 'dt': 'Template', 'mode': 'degrees', 'clock': True}} for i in range(0, nd, step)]
+    return ts
 
 
 def build_cfg(ex, ir, shape, deftype, lit):
@@ -94,6 +102,9 @@ def deep_same(a, b):
 
 
 def run_task(task):
+    if task['shape'] == 'programs':
+        from . import C09
+        return C09.run_task(task['t'])
     pr = prog(); ir = IR(pr)
     h = Harness(pr, 'structure')
     h.notes = {'max_bits': 254, 'prime_modulus': True}
@@ -181,7 +192,8 @@ def main(tier, replay=None):
                 rep.violations.append(rep.save_replay(role, {'property': 'C20', 'task': r['task'], 'violation': v}))
                 common.log('VIOLATION detail:', desc)
     pr = prog()
-    rep.bounds = {'graphs': 'three SSA-form IR graphs (straight line with constraint and <--, branch with phi join, loop with phi cycle) x template/function, literals symbolic over the whole field',
+    rep.bounds = {'programs': 'the first %d (values) / %d (degrees) structured programs of the C09 families through the real lifter, SSA and propagation with the clock as a solver variable (<= 48 reads): every value / degree bound attached at any cut point holds at every dynamic instance of a reference execution' % ((120, 40) if tier == 'quick' else (1146, 1080)),
+                  'graphs': 'three SSA-form IR graphs (straight line with constraint and <--, branch with phi join, loop with phi cycle) x template/function, literals symbolic over the whole field',
                   'passes': 'every bail-out index from the first pass to the fixpoint (<= 40 clock reads), and no bail-out'}
     rep.stubs = ['Instant::now / Instant::elapsed (arbitrary non-decreasing durations)', 'Duration::from_secs and Duration > Duration (compare seconds)', 'log macros disabled']
     rep.assumptions = ['one-step soundness of every rule from any sound state is C06-X / C07-X (same engine, checked under C06/C07)', 'source hash ' + pr.hashes['structure']]
